@@ -229,12 +229,13 @@ def parsePre : List String → Option Pre
   | _ => none
 
 /-- the generated type a struct literal builds -/
-inductive Ty | elem | vec | slice | sliceMut | ref | refMut | ptr | ptrMut | unknown (s : String)
+inductive Ty | elem | vec | slice | sliceMut | ref | refMut | ptr | ptrMut | iter | iterMut | unknown (s : String)
   deriving DecidableEq, Repr
 
 def tyOf : String → Ty
   | "P" => .elem | "PVec" => .vec | "PSlice" => .slice | "PSliceMut" => .sliceMut
   | "PRef" => .ref | "PRefMut" => .refMut | "PPtr" => .ptr | "PPtrMut" => .ptrMut
+  | "PIter" => .iter | "PIterMut" => .iterMut
   | s => .unknown s
 
 /-- how a function body is built from per-field pieces -/
@@ -253,6 +254,10 @@ inductive Sk
   | minFold (m : String) (leaf nest : Item)
   /-- `{ false || #( E )||* }` -/
   | orFold (leaf nest : Item)
+  /-- `{ T( e0.zip(e1).zip(e2)… ) }`: an iterator built as the zip chain of the per-field iterators -/
+  | zipNew (ty : Ty) (leaf nest : FE)
+  /-- `{ self.0.m().and_then(|((f0, f1), f2)| Some(T { #(§,)* })) }`: one step of the zip chain, re-tupled -/
+  | zipStep (m : String) (ty : Ty)
   /-- no per-field content: the body as it stands -/
   | fixed (ts : List String)
   | unknown (why : String)
@@ -334,6 +339,9 @@ def skOf (f : Fn) : Sk :=
       | _, _, _, _ => .unknown "pairs: literals"
     | _, _, _, _ => .unknown "pairs: prologue"
   | [.t ["{", "false", "||"], .rep l n "||" false, .t ["}"]] => .orFold (parseItem l) (parseItem n)
+  | [.t ["{", t, "("], .chain l n "zip", .t [")", "}"]] => .zipNew (tyOf t) (parseFE l) (parseFE n)
+  | [.t ["{", "self", ".", "0", ".", m, "(", ")", ".", "and_then", "(", "|"], .tuplePat, .t ["|", "Some", "(", t, "{"],
+     .rep ["§"] ["§"] "," true, .t ["}", ")", ")", "}"]] => .zipStep m (tyOf t)
   | [.opaque why] => .unknown why
   | _ => .unknown "shape of the body"
 
